@@ -330,3 +330,81 @@ _install_env(MqttRecv, [(env_line, "line"), (env_logic, "logic")])
 _install_env(AsyncCheckConnection, [(env_cancel, "cancel")])
 for _c in (SyncUpdateFw, AsyncUpdateFw):
     _install_env(_c, [(env_image, "image")])
+
+
+# ------------------------------------------------------------------------------------------- start / connect
+import threading
+
+
+def _tasks_start(cls, is_async):
+    def setup(h):
+        log = _logger(h)
+        t = Obj(cls, name="tasks")
+        tr = Modelled("transport")
+        tr.attrs["connect"] = _fn(log, "connect", awaitable=is_async)
+        t.fields.update(persistence=None, transport=tr, queue=None, ota=None, _cancel_save=None)
+
+        def thread_ctor(it, a, k):
+            th = Modelled("thread")
+            target = k.get("target")
+            from pyvc.values import BoundMethod
+
+            pump = isinstance(target, BoundMethod) and target.self_val is t and getattr(target.func, "__name__", "") == "_poll_queue"
+            th.attrs["start"] = ModelFn("Thread.start", lambda it2, aa, kk: log.append(("pump-started", pump)))
+            return th
+
+        h.it.models[id(threading.Thread)] = ModelFn("threading.Thread", thread_ctor)
+        return [t], {}
+
+    # start: the transport is asked to connect, once; the threaded flavour then starts its one pump thread
+    # (two lambdas must not share a source line: the engine finds a lambda's AST by its line)
+    if is_async:
+        ens = {"connect-then-pump": lambda old, self, result: calls_are(["connect"])}
+    else:
+        ens = {"connect-then-pump": lambda old, self, result: calls_are(["connect"], ["pump-started", True])}
+    ns = dict(setup=setup, raises={}, ensures=ens)
+    name = f"{cls.__name__}.start"
+    return contract(f"mysensors.task:{cls.__name__}.start", props=["C20", "C16"], name=name)(type(name.replace(".", "_"), (), ns))
+
+
+SyncTasksStart = _tasks_start(T.SyncTasks, False)
+AsyncTasksStart = _tasks_start(T.AsyncTasks, True)
+
+
+def _mqtt_connect(cls):
+    def setup(h):
+        log = _logger(h)
+        t = Obj(cls, name="mqtt-transport")
+        gw = Modelled("gateway")
+        gw.attrs["init_topics"] = _fn(log, "init_topics")
+        t.fields.update(gateway=gw, in_prefix="", out_prefix="", _retain=True, _pub_callback=None, _sub_callback=None, protocol=None, can_log=False)
+        return [t], {}
+
+    ns = dict(setup=setup, raises={}, ensures={"subscribes-at-start": lambda old, self, result: calls_are(["init_topics"])})
+    name = f"{cls.__name__}.connect"
+    return contract(f"mysensors.gateway_mqtt:{cls.__name__}.connect", props=["C17"], name=name)(type(name.replace(".", "_"), (), ns))
+
+
+MqttSyncConnect = _mqtt_connect(GM.MQTTSyncTransport)
+MqttAsyncConnect = _mqtt_connect(GM.MQTTAsyncTransport)
+
+
+@contract("mysensors.gateway_tcp:TCPTransport.write", props=["C16"])
+class TcpWrite:
+    """the threaded TCP connection's write: the whole command goes to the socket in one sendall, under the lock"""
+
+    def setup(h):
+        log = _logger(h)
+        t = Obj(GT.TCPTransport, name="tcp-transport")
+        sock = Modelled("socket")
+        sock.attrs["sendall"] = _fn(log, "sendall")
+        lock = Modelled("Lock")
+        lock.attrs.update(__enter__=ModelFn("enter", lambda it, a, k: log.append(("lock",))), __exit__=ModelFn("exit", lambda it, a, k: (log.append(("unlock",)), False)[1]))
+        t.fields.update(sock=sock, _lock=lock, protocol=None, alive=True)
+        from pyvc.core import BYTES
+        from pyvc.values import SeqVal
+
+        return [t, SeqVal("byte", h.ctx.fresh_term(BYTES, "data"), "bytes")], {}
+
+    raises = {}
+    ensures = {"one-sendall-under-lock": lambda old, self, data, result: calls_are(["lock"], ["sendall", data], ["unlock"])}
